@@ -467,8 +467,15 @@ def run_reuse(rng, drv, profile, tid):
                     do(ev0("Drop", c=alt))
             else:
                 cmd(c, type="close", mailbox=rng.choice([ABSENT, cur or ABSENT]), mood=rng.choice(moods))
-                if rng.random() < 0.5 and up(c):
+                z = rng.random()
+                if z < 0.25 and cur:
+                    cmd(c, type="open", mailbox=cur)      # re-open after close, on the same connection
+                elif z < 0.6 and up(c):
                     do(ev0("Drop", c=c))
+        # whoever is still connected (this generation's or an earlier one's) says something late
+        for c in slots[:4]:
+            if up(c) and rng.random() < 0.4:
+                cmd(c, type="add", phase=rng.choice(["p7", "p8"]), body="late")
         if how < 0.2 or rng.random() < 0.15:
             # everybody goes; the channel (if it still exists) expires
             quiesce(drv, do)
@@ -482,9 +489,128 @@ def run_reuse(rng, drv, profile, tid):
     return obs_list
 
 
+def run_idle(rng, drv, profile, tid):
+    """A restarted server meets channels left by its predecessor; clients bind and then sit idle across
+    one or more sweeps before they first use a channel (others arrive only after the sweep); then they
+    meet in the same mailbox, exchange messages, stay subscribed -- silently -- for longer than the
+    expiration time while the sweeps run, exchange messages again and leave."""
+    p = dict(DEFAULT)
+    p.update(profile)
+    obs_list = []
+
+    def do(e):
+        gen_before = drv.tokens.gen
+        o = drv.step(e)
+        backfill(e, o, gen_before, drv)
+        o["tid"], o["i"] = tid, len(obs_list) + 1
+        obs_list.append(o)
+        return o
+
+    def up(c):
+        return c in drv.protos
+
+    def bind(c, app, side):
+        if up(c):
+            do(ev0("Drop", c=c))
+        do(ev0("Connect", c=c))
+        do(ev0("Cmd", c=c, m=msg0(type="bind", appid=app, side=side, cv=rng.choice([ABSENT, "v1"]))))
+
+    def cmd(c, **kw):
+        if not drv.up or not up(c):
+            return None
+        return do(ev0("Cmd", c=c, m=msg0(**kw)))
+
+    def to_sweep(n=1):
+        for _ in range(n):
+            guard = 0
+            while drv.now_ticks() < drv.next_sweep and guard < 50:
+                guard += 1
+                do(ev0("Advance", d=min(rng.choice([1, 2, 4, 5]), drv.next_sweep - drv.now_ticks())))
+            do(ev0("Sweep"))
+
+    do(ev0("Start"))
+    slots = list(drv.conn_names)
+    apps = list(p["apps"])
+    app = apps[0]
+    sides = list(p["sides"])
+    mbox = rng.choice(p["client_mbox"])
+    name = rng.choice(p["names"])
+    via_np = rng.random() < 0.5
+    # --- the predecessor's leftovers
+    left = rng.choice(["channel", "channel", "other", "otherapp", "none"])
+    if left != "none":
+        a0 = apps[-1] if left == "otherapp" else app
+        bind(slots[0], a0, sides[0])
+        if left == "channel" and via_np:
+            cmd(slots[0], type="claim", nameplate=name)
+        elif left == "channel":
+            cmd(slots[0], type="open", mailbox=mbox)
+            cmd(slots[0], type="add", phase="p0", body="b0")
+        else:
+            cmd(slots[0], type="claim", nameplate=rng.choice([n for n in p["names"] if n != name] or [name]))
+        if rng.random() < 0.5:
+            do(ev0("Advance", d=rng.choice([1, 2, 3])))
+    if rng.random() < 0.85:
+        do(ev0(rng.choice(["Stop", "Crash"])))
+        do(ev0("Start"))
+    # --- who binds before the sweep, who after
+    cl = [(slots[0], sides[0]), (slots[1], sides[1 % len(sides)])]
+    if len(slots) > 3 and rng.random() < 0.3:
+        cl.append((slots[2], sides[0]))          # a second connection of the first side
+    early = [x for x in cl if rng.random() < 0.6]
+    for (c, s) in early:
+        bind(c, app, s)
+    to_sweep(rng.choice([1, 1, 2]))
+    for (c, s) in cl:
+        if (c, s) not in early:
+            bind(c, app, s)
+    # --- they meet
+    order = list(cl)
+    rng.shuffle(order)
+    told = None
+    for (c, s) in order:
+        if via_np:
+            o = cmd(c, type="claim", nameplate=name)
+            for f in (o or {}).get("out", []):
+                if f["type"] == "claimed":
+                    told = f["mailbox"]
+            if told:
+                cmd(c, type="open", mailbox=told)
+        else:
+            cmd(c, type="open", mailbox=mbox)
+        if rng.random() < 0.7:
+            cmd(c, type="add", phase=rng.choice(["p1", "p2"]), body=rng.choice(["b1", "b2"]))
+        if rng.random() < 0.25:
+            to_sweep(1)
+    for (c, s) in order:
+        cmd(c, type="add", phase=rng.choice(["p3", "p4"]), body="b3")
+    # --- a long silence with everybody subscribed
+    if rng.random() < 0.7:
+        exp = drv.to_ticks(drv.m["tap"].CHANNEL_EXPIRATION_TIME)
+        per = drv.to_ticks(drv.period_secs)
+        to_sweep((exp // per) + rng.choice([2, 3]))
+        for (c, s) in order[:2]:
+            cmd(c, type="add", phase="p5", body=rng.choice(["b1", "b2"]))
+    # --- leave
+    cur = told if via_np else mbox
+    for (c, s) in order:
+        y = rng.random()
+        if y < 0.6:
+            if via_np and rng.random() < 0.7:
+                cmd(c, type="release", nameplate=rng.choice([ABSENT, name]))
+            cmd(c, type="close", mailbox=rng.choice([ABSENT, cur or ABSENT]), mood=rng.choice(["happy", ABSENT]))
+        if y < 0.8 and up(c):
+            do(ev0("Drop", c=c))
+    if p["final_quiesce"]:
+        quiesce(drv, do)
+    return obs_list
+
+
 def run_scripted(rng, drv, profile, tid):
     if profile.get("scripted") == "reuse":
         return run_reuse(rng, drv, profile, tid)
+    if profile.get("scripted") == "idle":
+        return run_idle(rng, drv, profile, tid)
     p = dict(DEFAULT)
     p.update(profile)
     obs_list = []
